@@ -678,22 +678,27 @@ static void observe_classification(Arguments& a, const RefArgs& ref, const vecto
   }
 }
 
-static const char* GRAMMAR[10] = {"a", "-", "--", "-x", "-xy", "--k", "--k=v", "--k=", "--=v", ""};
-static const vector<string> CANDIDATE_NAMES = {"k", "", "x", "y", "v", "a", "k=v", "k=", "=v", "-", "--k", "-x", "xy", "=", "-k", "--", "k=v=", "-xy", "-k=v"};
+static const vector<string> GRAMMAR = {"a", "-", "--", "-x", "-xy", "--k", "--k=v", "--k=", "--=v", ""};
+// dash-run shapes: "--name[=value]" with name = the text after the first two dashes, whatever it is made of;
+// so "---" is option "-", "----" option "--", "-----" option "---", "---=v" option "-" with value v,
+// "---a" option "-a", "--- " option "- ".  Only "-" and "--" themselves are positional.
+static const vector<string> GRAMMAR_DASHES = {"---", "----", "-----", "---=v", "---a", "--- ", "a", "--", "-", "-x", "--k=v"};
+static const vector<string> CANDIDATE_NAMES = {"k", "", "x", "y", "v", "a", "k=v", "k=", "=v", "-", "--k", "-x", "xy", "=", "-k", "--", "k=v=", "-xy", "-k=v", "---", "-a", "- ", "-=v", "----", " ", "-----"};
 
-static void part_tokens() {
+static void part_tokens(const vector<string>& G, int maxlen, const char* tag) {
+  const uint64_t NG = G.size();
   uint64_t idx = 0, subsets = 0, lists = 0;
   size_t maxgroups = 0;
-  for (int len = 0; len <= 5; len++) {
+  for (int len = 0; len <= maxlen; len++) {
     uint64_t count = 1;
-    for (int i = 0; i < len; i++) count *= 10;
+    for (int i = 0; i < len; i++) count *= NG;
     for (uint64_t code = 0; code < count; code++, idx++) {
       if (!C->mine(idx)) continue;
       vector<string> toks;
       uint64_t c = code;
       for (int i = 0; i < len; i++) {
-        toks.push_back(GRAMMAR[c % 10]);
-        c /= 10;
+        toks.push_back(G[c % NG]);
+        c /= NG;
       }
       RefArgs ref = classify(toks);
       string kase = "tokens=" + show_tokens(toks);
@@ -778,12 +783,12 @@ static void part_tokens() {
         else if (!expect_throw && o != O_RET) C->violation("unused:throws-with-all-read", "every supplied argument was read but assert_none_unused() throws", k2);
         else if (o == O_OTHER) C->violation("unused:wrong-exception", "assert_none_unused() must throw invalid_argument", k2);
       }
-      C->cls(fmt("tokens:len%d:pos%zu:names%zu", len, np, nn));
+      C->cls(fmt("%s:len%d:pos%zu:names%zu", tag, len, np, nn));
     }
   }
-  C->count("token_lists", lists);
-  C->count("getter_subsets", subsets);
-  C->cls(fmt("tokens:maxgroups%zu", maxgroups));
+  C->count(string(tag) + "_lists", lists);
+  C->count(string(tag) + "_getter_subsets", subsets);
+  C->cls(fmt("%s:maxgroups%zu", tag, maxgroups));
 }
 
 // typed getters mark arguments used; get_multi over repeated numeric options
@@ -1107,6 +1112,196 @@ static void part_history(vf::Rng& r) {
 }
 
 // ------------------------------------------------------------------------------------------------
+// part: repeated — repeated options read by typed get_multi that may fail midway, then assert_none_unused.
+// Instance-level read model: get_multi<string> reads every instance; a typed get_multi whose every text is a
+// fitting numeral / float literal reads every instance; one that throws invalid_argument at instance f has
+// read the instances before f, has NOT looked at the instances after f (they stay as they were), and leaves
+// instance f itself undefined (the statement does not say whether a rejected text counts as read; phosg's
+// single getters mark it, its multi getters do not).  assert_none_unused: must throw invalid_argument while
+// some instance / other argument is unread; must be silent when everything is read; not judged when nothing
+// is unread but something is undefined.
+
+static bool is_float_literal(const string& t) {
+  size_t i = 0, n = t.size();
+  if (i < n && t[i] == '-') i++;
+  size_t d0 = i;
+  while (i < n && isdigit((unsigned char)t[i])) i++;
+  size_t nd = i - d0;
+  if (i < n && t[i] == '.') {
+    i++;
+    size_t f0 = i;
+    while (i < n && isdigit((unsigned char)t[i])) i++;
+    nd += i - f0;
+  }
+  if (nd == 0) return false;
+  if (i < n && (t[i] == 'e' || t[i] == 'E')) {
+    i++;
+    if (i < n && (t[i] == '+' || t[i] == '-')) i++;
+    size_t e0 = i;
+    while (i < n && isdigit((unsigned char)t[i])) i++;
+    if (i == e0) return false;
+  }
+  return i == n;
+}
+
+static bool int_text_fits(const string& t, unsigned bits, bool is_signed) {
+  Num e = ref_numeral(t, (int)IF::DEFAULT);
+  if (!e.valid || e.ambiguous) return false;
+  u128 maxmag = is_signed ? (e.neg ? ((u128)1 << (bits - 1)) : (((u128)1 << (bits - 1)) - 1)) : (e.neg ? (u128)0 : (((u128)1 << bits) - 1));
+  return e.mag <= maxmag;
+}
+
+static void part_repeated() {
+  // texts: valid everywhere / too wide for u8 / too wide for i16 / negative / float only / garbage / empty
+  static const vector<string> POOL = {"80", "300", "70000", "-3", "1.5", "http", ""};
+  enum { K_MSTR, K_MI16, K_MU8, K_MDBL, K_ASSERT, K_POS, K_N, K_COUNT };
+  static const char* DESC[K_COUNT] = {"get_multi<string>(\"r\")", "get_multi<int16_t>(\"r\")", "get_multi<uint8_t>(\"r\")", "get_multi<double>(\"r\")",
+      "assert_none_unused()", "get<string>(0)", "get<int32_t>(\"n\")"};
+  static const char* KIND[K_COUNT] = {"get_multi", "get_multi", "get_multi", "get_multi", "assert_none_unused", "get", "get"};
+  auto run = [&](int k, Arguments& a) -> string {
+    switch (k) {
+      case K_MSTR: return outcome_of([&]() { return a.get_multi<string>("r"); });
+      case K_MI16: return outcome_of([&]() { return a.get_multi<int16_t>("r"); });
+      case K_MU8: return outcome_of([&]() { return a.get_multi<uint8_t>("r"); });
+      case K_MDBL: return outcome_of([&]() { return a.get_multi<double>("r"); });
+      case K_ASSERT: return outcome_of([&]() { a.assert_none_unused(); return string("silent"); });
+      case K_POS: return outcome_of([&]() { return a.get<string>((size_t)0); });
+      default: return outcome_of([&]() { return a.get<int32_t>("n"); });
+    }
+  };
+  uint64_t idx = 0, nseq = 0, judged_asserts = 0, unjudged_asserts = 0;
+  for (int ninst = 2; ninst <= 3; ninst++) {
+    uint64_t nw = 1;
+    for (int i = 0; i < ninst; i++) nw *= POOL.size();
+    for (uint64_t wcode = 0; wcode < nw; wcode++) {
+      vector<string> texts;
+      uint64_t c = wcode;
+      for (int i = 0; i < ninst; i++) {
+        texts.push_back(POOL[c % POOL.size()]);
+        c /= POOL.size();
+      }
+      // per typed getter: index of the first instance it must reject (ninst = none)
+      int firstbad[K_COUNT];
+      for (int k = 0; k < K_COUNT; k++) firstbad[k] = ninst;
+      for (int i = ninst - 1; i >= 0; i--) {
+        if (!int_text_fits(texts[i], 16, true)) firstbad[K_MI16] = i;
+        if (!int_text_fits(texts[i], 8, false)) firstbad[K_MU8] = i;
+        if (!is_float_literal(texts[i])) firstbad[K_MDBL] = i;
+      }
+      for (int shape = 0; shape < 2; shape++) {
+        // shape 0: only the repeated option.  shape 1: a positional before, another option after, instances interleaved
+        vector<string> toks;
+        if (shape == 1) toks.push_back("p");
+        for (int i = 0; i < ninst; i++) {
+          toks.push_back("--r=" + texts[i]);
+          if (shape == 1 && i == 0) toks.push_back("--n=5");
+        }
+        vector<int> calls = shape == 0 ? vector<int>{K_MSTR, K_MI16, K_MU8, K_MDBL, K_ASSERT} : vector<int>{K_MSTR, K_MI16, K_MU8, K_MDBL, K_ASSERT, K_POS, K_N};
+        int maxlen = shape == 0 ? 4 : 3;
+        // fresh outcomes (value reference for successful typed reads)
+        string fresh[K_COUNT];
+        for (int k : calls) {
+          auto a = make_args(toks, 0);
+          fresh[k] = run(k, *a);
+        }
+        size_t U = calls.size();
+        uint64_t total = 0, pw = 1;
+        for (int l = 1; l <= maxlen; l++) {
+          pw *= U;
+          total += pw;
+        }
+        for (int len = 1; len <= maxlen; len++) {
+          uint64_t cnt = 1;
+          for (int i = 0; i < len; i++) cnt *= U;
+          for (uint64_t scode = 0; scode < cnt; scode++) {
+            if (!C->mine(idx++)) continue;
+            nseq++;
+            C->evaluations++;
+            int seq[4];
+            uint64_t sc = scode;
+            for (int i = 0; i < len; i++) {
+              seq[i] = calls[sc % U];
+              sc /= U;
+            }
+            auto a = make_args(toks, (unsigned)(idx % 3));
+            enum { UNREAD, READ, UNDEF };
+            int inst[3] = {UNREAD, UNREAD, UNREAD};
+            bool pos_read = shape == 0, n_read = shape == 0;
+            string hist;
+            for (int i = 0; i < len; i++) {
+              int k = seq[i];
+              C->crumb_s("repeated " + show_tokens(toks) + " :" + hist + " -> " + DESC[k]);
+              string got = run(k, *a);
+              string expect;
+              bool judged = true;
+              const char* tclass = "repeated";
+              if (k == K_MSTR) {
+                expect = "ret:" + show_val(texts);
+                for (int j = 0; j < ninst; j++) inst[j] = READ;
+              } else if (k == K_MI16 || k == K_MU8 || k == K_MDBL) {
+                int f = firstbad[k];
+                if (f == ninst) {
+                  expect = fresh[k];
+                  if (expect.compare(0, 4, "ret:") != 0) expect = "ret:<every instance is a fitting numeral/literal>";
+                  for (int j = 0; j < ninst; j++) inst[j] = READ;
+                } else {
+                  expect = "invalid_argument";
+                  for (int j = 0; j < f; j++) inst[j] = READ;
+                  if (inst[f] != READ) inst[f] = UNDEF;
+                }
+              } else if (k == K_POS) {
+                expect = shape == 1 ? "ret:p" : "out_of_range";
+                pos_read = true;
+              } else if (k == K_N) {
+                expect = shape == 1 ? "ret:5" : "out_of_range";
+                n_read = true;
+              } else {
+                tclass = "unused-repeated";
+                bool unread = !pos_read || !n_read, undef = false;
+                for (int j = 0; j < ninst; j++) {
+                  unread |= inst[j] == UNREAD;
+                  undef |= inst[j] == UNDEF;
+                }
+                if (unread) expect = "invalid_argument";
+                else if (undef) judged = false;
+                else expect = "ret:silent";
+                (judged ? judged_asserts : unjudged_asserts)++;
+              }
+              if (judged && got != expect) {
+                vector<string> pk;
+                for (int q = 0; q < i; q++) pk.push_back(KIND[seq[q]]);
+                sort(pk.begin(), pk.end());
+                pk.erase(unique(pk.begin(), pk.end()), pk.end());
+                string prior;
+                for (auto& x : pk) prior += (prior.empty() ? "" : "+") + x;
+                if (prior.empty()) prior = "fresh";
+                bool got_ret = got.compare(0, 4, "ret:") == 0, exp_ret = expect.compare(0, 4, "ret:") == 0;
+                const char* dev = got_ret ? (exp_ret ? "wrong-value" : "returned-instead-of-throwing") : "wrong-exception";
+                string model = "[";
+                for (int j = 0; j < ninst; j++) model += string(j ? "," : "") + (inst[j] == READ ? "read" : inst[j] == UNREAD ? "unread" : "rejected");
+                C->violation(fmt("history:%s:%s-then-%s:%s", tclass, prior.c_str(), KIND[k], dev),
+                    fmt("%s must yield %s here (instances of --r by the read model: %s], other arguments %s)", DESC[k], expect.c_str(), model.c_str(), (pos_read && n_read) ? "read" : "unread"),
+                    "tokens=" + show_tokens(toks) + " calls:" + hist + " ; " + DESC[k] + " -> " + got);
+                break;
+              }
+              hist += (hist.empty() ? " " : " ; ") + string(DESC[k]) + " -> " + got;
+            }
+          }
+        }
+        (void)total;
+      }
+      int shapecls = (firstbad[K_MI16] == 0 ? 0 : firstbad[K_MI16] == ninst ? 2 : 1);
+      C->cls(fmt("repeated:n%d:i16-%s:u8-%s:dbl-%s", ninst, shapecls == 0 ? "fails-first" : shapecls == 2 ? "all-ok" : "fails-midway",
+          firstbad[K_MU8] == 0 ? "fails-first" : firstbad[K_MU8] == ninst ? "all-ok" : "fails-midway",
+          firstbad[K_MDBL] == 0 ? "fails-first" : firstbad[K_MDBL] == ninst ? "all-ok" : "fails-midway"));
+    }
+  }
+  C->count("repeated_sequences", nseq);
+  C->count("repeated_asserts_judged", judged_asserts);
+  C->count("repeated_asserts_not_judged", unjudged_asserts);
+}
+
+// ------------------------------------------------------------------------------------------------
 // case file from the Python oracle (floats, command lines)
 
 static string unhex(const string& h) {
@@ -1294,9 +1489,11 @@ int main(int argc, char** argv) {
   if (want("bound")) part_int_bound(r);
   if (want("garbage")) part_int_garbage();
   if (want("absent") && c.mine(3)) part_absent();
-  if (want("tokens")) part_tokens();
+  if (want("tokens")) part_tokens(GRAMMAR, 5, "tokens");
+  if (want("dashes")) part_tokens(GRAMMAR_DASHES, 4, "dashes");
   if (want("multi")) part_multi(r);
   if (want("history")) part_history(r);
+  if (want("repeated")) part_repeated();
   if (want("cases")) part_cases();
   for (int t = 0; t < 8; t++)
     for (int f = 0; f < 4; f++)
